@@ -190,6 +190,41 @@ def run(ck):
                                         ck.violation("C09.R3", inst + ":second denominator = first one shifted like the replica", asite,
                                                      "the second replica is the batch shifted by %s rows, its denominators are the first replica's shifted by %s: every weight of the second replica is divided by another row's denominator"
                                                      % (rs_[1], shv_))
+                            if okd is None and dvs[0] == S and not other_rolls:
+                                # ... or gathered from it with an index table over the batch: row i of the second replica is row
+                                # (i - shift) mod B of the first, so its denominator is entry (i - shift) mod B (integer tables, B = 1..5)
+                                from .. import ints as _ints
+
+                                d1t = dcalls[0][6]
+                                rs_ = const_of(rolls[0][1][1] if len(rolls[0][1]) > 1 else rolls[0][2].get("shifts")) if rolls else (False, None)
+                                for c_ in [q for q in p.calls if q[0].endswith("cplx.elementwise_division")]:
+                                    yt = c_[7].get("y") if len(c_) > 7 else None
+                                    ya = yt.single_atom() if yt is not None and hasattr(yt, "single_atom") else None
+                                    if not (isinstance(ya, T.App) and ya.op == "index" and ya.args[0] == d1t and len(ya.args[1]) == 2 and isinstance(ya.args[1][1], (tuple, list)) and ya.args[1][1][0] == "adv"):
+                                        continue
+                                    ixt = ya.args[1][1][1]
+                                    bsyms = [s_ for s_ in ixt.syms()]
+                                    if len(bsyms) != 1 or not rs_[0]:
+                                        continue
+                                    bad = None
+                                    for n_ in range(1, 6):
+                                        tab = _ints.eval_array(ixt, {bsyms[0]: n_})
+                                        vals = tab.data if tab is not None and hasattr(tab, "data") and isinstance(tab.data, list) and all(not isinstance(v_, list) for v_ in tab.data) else None
+                                        if vals is None:
+                                            bad = None
+                                            break
+                                        want_ = [(i_ - rs_[1]) % n_ for i_ in range(n_)]
+                                        if [int(v_) for v_ in vals] != want_:
+                                            bad = (n_, [int(v_) for v_ in vals], want_)
+                                            break
+                                    else:
+                                        okd = True
+                                    if bad is not None:
+                                        okd = False
+                                        ck.violation("C09.R3", inst + ":second denominator = first one shifted like the replica", asite,
+                                                     "the second replica is the batch shifted by %s rows, so row i pairs with row (i - %s) mod B; its denominators are taken at rows %s of the first replica's for a batch of %d (expected %s): "
+                                                     "every weight of the second replica is divided by another row's denominator" % (rs_[1], rs_[1], bad[1], bad[0], bad[2]), key="C09.R3|SWAP|denominator partner")
+                                    break
                             if okd is not False:
                                 ck.check(okd, "C09.R3", inst + ":second denominator = first one shifted like the replica", asite, "the second denominator is not recognised")
                         # the value: Re( n1 n2 / (d1 d2) ) when both denominators were evaluated directly
